@@ -106,4 +106,32 @@ func init() {
 			return js
 		},
 	})
+	register(&Plan{
+		Prop:  "C08",
+		Level: "exploration",
+		Race:  true,
+		Rule: "one case = one stress run: G in {2,4,16,64} goroutines x N calls (1200-5000 calls per run) over 1-8 loggers (roots and children, inherit flag on/off) in JSON/logfmt/colored at the same time, GOMAXPROCS in {1,2,4,16}, " +
+			"mutex-protected recording writers with optional Gosched / sleep inside Write; every call carries its id in the message and in every attribute, plus a shared unsorted Group at the call site, a shared Group at logger level, a shared error value, " +
+			"a marshaller spy that records which pooled PrintCtx formatted it, and occasional 150-350 extra attributes (jump above the pooled size hint). Runs are executed twice: without and with the Go race detector (GORACE halt_on_error=0, reports parsed from the log files, deduplicated by the logg frames of the two stacks). " +
+			"Oracles: any DATA RACE report with a logg frame; every payload decodes to the complete record of exactly one call; multiset of delivered ids == multiset of issued ids per logger. non-trivial = run with all records decoded; distinct = by run configuration",
+		Assumptions: []string{"the Go race detector reports only races on executions it sees (happens-before based, no false positives)", "concurrent reconfiguration of a logger is outside the claim and not generated"},
+		Floors:      map[string]int64{"records_decoded": 5000, "max:max_writes_in_flight": 2, "goroutine_switches_in_arrival_order": 100, "print_contexts_used_by_several_goroutines": 1},
+		Jobs: func(tier string, seed int64) []Job {
+			js := chunk("stress", "prod", pick(tier, 12, 300), pick(tier, 2, 10), Job{Timeout: 30 * time.Minute})
+			js = append(js, chunk("stress", "prod", pick(tier, 8, 200), pick(tier, 2, 10), Job{Race: true, Args: []string{"-x", "race=1"}, Timeout: 40 * time.Minute})...)
+			return js
+		},
+	})
+	register(&Plan{
+		Prop:  "C09",
+		Level: "exploration",
+		Rule: "one case = one probe call (WriteThru with explicit timestamp and frame; format x 15 severities incl. registered fg-only / fg+bg / no colour and unregistered; groups, errors, multi-line messages, caller on/off, long values) formatted once by a fresh context (pool flushed with two GC cycles) and then again after each of 6 generated histories of 1-20 other records " +
+			"(other formats, levels with background colours or none, sizes, other loggers, other goroutines, interleaved GC); GOMAXPROCS=1 so the pooled context is deterministically reused, which a marshaller spy confirms per execution. Oracle: byte equality. non-trivial = probe compared after all histories; distinct = by probe bytes",
+		Assumptions: []string{"two runtime.GC() cycles empty sync.Pool (victim cache), giving a fresh formatting context for the reference"},
+		Floors:      map[string]int64{"probe_executions": 500, "reuse_of_pooled_context_confirmed": 100, "reuse_after_a_different_class_of_record": 50},
+		Jobs: func(tier string, seed int64) []Job {
+			n := pick(tier, 600, 30000)
+			return chunk("hist", "prod", n, pick(tier, 50, 1000), Job{Procs: 1, Timeout: 40 * time.Minute})
+		},
+	})
 }
